@@ -103,11 +103,14 @@ def dispatch_map(core, pf):
                     if H.kind(body) == "MethodCall":
                         params = params[1:]   # `self.call(func, args)`: the receiver carries the layout state, not a part of the node
                     ren = {}
+                    rendered = False
                     for p, arg in zip(params, body["args"]):
                         l = H.path_local(arg)
                         if l in binds:
                             ren[p] = l
-                    if ren and body["def"] not in out:
+                        elif any(H.kind(y) in ("Call", "MethodCall") and (y.get("def") or "") in pf for y in H.walk(arg)):
+                            rendered = True   # an argument is the text of an already printed child: the helper is a text helper, read in place
+                    if ren and not rendered and body["def"] not in out:
                         out[body["def"]] = (vs[0], ren)
         # if-let forwarding: `if let Expr::Lambda { args, body } = &expr.node { return format_lambda(args, body, ..) }`
         for n in H.walk(f["body"]):
@@ -210,7 +213,10 @@ def match_skeleton(flat, skel, rename):
             if got is not None and got[0] in ("loop", "child", "ident") and fld(got) == name:
                 # consecutive loops over the same collection (leading comments, members) are one member list
                 k_ = i + 1
-                while k_ < len(items) and items[k_][0] in ("loop", "opt") and fld(items[k_]) == name:
+                # ... and so are a loop over all members but the last followed by the last member itself (`[leading @ .., last]`),
+                # with the separators the loop body would have put between them
+                while k_ < len(items) and ((items[k_][0] in ("loop", "opt", "child") and fld(items[k_]) == name) or
+                                           (items[k_][0] == "tok" and items[k_][1] in (",", ", ") and k_ + 1 < len(items) and items[k_ + 1][0] in ("loop", "child") and fld(items[k_ + 1]) == name)):
                     k_ += 1
                 if rec(k_, j + 1):
                     return True
@@ -320,6 +326,10 @@ def shape_rules(ctx, rid, core, G, scope_fns):
                 # a mismatch counts only when the output is made of this construct's own parts: text that comes from something else
                 # (a pre-rendered child handed in as a String parameter, a helper's own locals) means the representation was not understood
                 foreign = [x for x in strip_layout(flat) if x[0] in ("child", "ident", "rewritten", "loop", "opt") and x[1] and ren.get(x[1][0], x[1][0]) not in names_]
+                # a loop over a collection the interpreter could not trace to a field of the node (a sub-slice bound by a slice pattern),
+                # or a printed value that is not a part of the node where the construct has no such slot
+                skel_names = {w[1] for w in SKEL[variant] if isinstance(w, tuple)}
+                foreign += [x for x in strip_layout(flat) if (x[0] in ("loop", "opt") and not x[1]) or (x[0] == "child" and x[1] == ("<value>",) and "<value>" not in skel_names)]
                 # a whole member list handed to one helper call (`format_collection(entries, ..)`): the construct is printed there
                 lists_ = {w[1] for w in SKEL[variant] if isinstance(w, tuple) and w[0] == "L"}
                 delegated = [x for x in strip_layout(flat) if x[0] == "child" and x[1] and len(x[1]) == 1 and ren.get(x[1][0], x[1][0]) in lists_]
